@@ -1437,20 +1437,61 @@ enum Outcome {
     Panic(String),
 }
 
+/// The Codec (Decoder) verdicts must be the verdict of Packet::read with the *incoming* limit, and leave the same bytes
+fn agree(direct: Outcome, verdicts: Vec<(Outcome, usize)>, left: usize, what: &str) -> Outcome {
+    for (v, l) in verdicts {
+        let same = match (&direct, &v) {
+            (Outcome::Packet(a), Outcome::Packet(b)) => a == b && l == left,
+            (Outcome::Need(_), Outcome::Need(_)) => true,
+            (Outcome::Error(a), Outcome::Error(b)) => a == b,
+            _ => false,
+        };
+        if !same {
+            // reported as what the event loop would see
+            return match v { Outcome::Need(_) => Outcome::Error(format!("{what}::decode asks for more bytes where Packet::read with the incoming limit does not")), o => o };
+        }
+    }
+    direct
+}
+
 /// One decoder call. `max` 0 = no limit.
 fn decode_one(codec: Codec, buf: &mut BytesMut, max: u64) -> Outcome {
     let max_usize = if max == 0 { usize::MAX / 2 } else { max as usize };
     let r = guarded(|| match codec {
-        Codec::C4 => match c4::Packet::read(buf, max_usize) {
-            Ok(p) => Outcome::Packet(desc_c4(&p)),
-            Err(m4::Error::InsufficientBytes(n)) => Outcome::Need(n),
-            Err(e) => Outcome::Error(format!("{e:?}")),
-        },
-        Codec::C5 => match c5::Packet::read(buf, if max == 0 { None } else { Some(max as u32) }) {
-            Ok(p) => Outcome::Packet(desc_c5(&p)),
-            Err(m5::Error::InsufficientBytes(n)) => Outcome::Need(n),
-            Err(e) => Outcome::Error(format!("{e:?}")),
-        },
+        // the client decoders are entered the way the event loop enters them: through the tokio_util Decoder of the public Codec
+        // (which maps InsufficientBytes to Ok(None)), with an outgoing limit that differs from the incoming one in either
+        // direction; Packet::read on a copy supplies the number of bytes asked for and must agree with the Codec's verdict
+        Codec::C4 => {
+            use tokio_util::codec::Decoder;
+            let mut verdicts = Vec::new();
+            for out_limit in [max_usize.saturating_mul(4).saturating_add(64), 1usize] {
+                let mut copy = buf.clone();
+                let mut codec = c4::Codec { max_incoming_size: max_usize, max_outgoing_size: out_limit };
+                verdicts.push((match codec.decode(&mut copy) { Ok(Some(p)) => Outcome::Packet(desc_c4(&p)), Ok(None) => Outcome::Need(0), Err(e) => Outcome::Error(format!("{e:?}")) }, copy.len()));
+            }
+            let direct = match c4::Packet::read(buf, max_usize) {
+                Ok(p) => Outcome::Packet(desc_c4(&p)),
+                Err(m4::Error::InsufficientBytes(n)) => Outcome::Need(n),
+                Err(e) => Outcome::Error(format!("{e:?}")),
+            };
+            agree(direct, verdicts, buf.len(), "rumqttc::mqttbytes::v4::Codec")
+        }
+        Codec::C5 => {
+            use tokio_util::codec::Decoder;
+            let lim = if max == 0 { None } else { Some(max as u32) };
+            let mut verdicts = Vec::new();
+            for out_limit in [lim.map(|m| m.saturating_mul(4).saturating_add(64)), Some(1u32)] {
+                let mut copy = buf.clone();
+                let mut codec = c5::Codec { max_incoming_size: lim, max_outgoing_size: out_limit };
+                verdicts.push((match codec.decode(&mut copy) { Ok(Some(p)) => Outcome::Packet(desc_c5(&p)), Ok(None) => Outcome::Need(0), Err(e) => Outcome::Error(format!("{e:?}")) }, copy.len()));
+            }
+            let direct = match c5::Packet::read(buf, lim) {
+                Ok(p) => Outcome::Packet(desc_c5(&p)),
+                Err(m5::Error::InsufficientBytes(n)) => Outcome::Need(n),
+                Err(e) => Outcome::Error(format!("{e:?}")),
+            };
+            agree(direct, verdicts, buf.len(), "rumqttc::v5::mqttbytes::v5::Codec")
+        }
         Codec::D4 => match dp::v4::V4.read_mut(buf, max_usize) {
             Ok(p) => Outcome::Packet(desc_d(&p, 4)),
             Err(dp::Error::InsufficientBytes(n)) => Outcome::Need(n),
